@@ -306,8 +306,8 @@ def cells(tier):
                     dict(crash_point="inside the journal write (symbolic statement / commit slot 1..8) / after the transport write / after the drain",
                          in_flight="the frame written before the crash reaches the peer or not (symbolic)"), goals=["done", "crashed", "send-completed"], budget_s=2400))
     for nl in ((2,) if quick else (2, 3)):
-        out.append(Cell(f"crash-in-replay/{nl}", (lambda I, nl=nl: h_crash_in_replay(I, nl, 6 * nl)),
-                        dict(lost=f"{nl} messages of A, a symbolic prefix delivered before the break", crash_point=f"symbolic journal slot 1..{6 * nl} while A services the ResendRequest",
+        out.append(Cell(f"crash-in-replay/{nl}", (lambda I, nl=nl: h_crash_in_replay(I, nl, 4 * nl + 14)),
+                        dict(lost=f"{nl} messages of A, a symbolic prefix delivered before the break", crash_point=f"symbolic journal slot 1..{4 * nl + 14} (every statement / commit boundary of the replay, and past its end) while A services the ResendRequest",
                              in_flight="frames written before the kill reach B or not (symbolic)"),
                         goals=["done", "crashed", "replay-completed"], budget_s=2400))
     out.append(Cell("crash-in-receive", h_crash_in_receive, dict(crash_point="symbolic journal slot 1..8 during _process_message of an application message"),
